@@ -225,6 +225,44 @@ class TokenPart(Part):
         return res
 
 
+class CollisionPart(Part):
+    name = "listed_numbers_with_colliding_hashes"
+    desc = "owned hash: several listed numbers receive the same hash value; each replacement still equals the singleton's"
+
+    def __init__(self, tier, seed):
+        self.tier, self.seed = tier, seed
+
+    def cases(self):
+        lists = [["64531", "64534"], ["64512", "65535", "65000"], ["1", "12", "123"], ["65536", "70000"],
+                 ["4200000000", "4294967295"], ["100", "64600", "100000"]]
+        return [{"list": l, "h": h} for l in lists for h in (0, 5, 1023, 64511, (1 << 128) - 1)]
+
+    def run(self, case):
+        res = Res()
+        lst, h = case["list"], case["h"]
+        keys = {("salt" + n).encode() for n in lst}
+        # only the listed numbers collide; any other input is hashed for real
+        with seams.Md5Stub(lambda data, _h=h: _h if data in keys else None) as stub:
+            single = {n: make([n], "salt").anonymize(n) for n in lst}
+            for order in itertools.permutations(lst):
+                an = make(list(order), "salt")
+                res.evals += 1
+                res.states += 1
+                res.transitions += len(order)
+                for n in order:
+                    got = an.anonymize(n)
+                    res.out((n, got))
+                    if got != single[n]:
+                        res.violation("replacement-depends-on-list|colliding-hashes",
+                                      "all listed numbers hash to %d: in list %r AS %s -> %s, alone -> %s" % (
+                                          h, list(order), n, got, single[n]), case)
+        if stub.intercepted == 0:
+            res.count("seam_lost")
+        res.nt((tuple(lst), h))
+        res.samples.append({"list": lst, "hash": h, "md5_calls_intercepted": stub.intercepted})
+        return res
+
+
 class InstancesPart(Part):
     name = "instance_histories"
     desc = "every sequence of <=3 anonymizer constructions (lists x salts), then every instance queried"
@@ -321,7 +359,8 @@ class GeneratedSaltPart(Part):
         got = [ln.split()[-1] for ln in out.splitlines()]
         cands = []
         for lvl, msg, _ in recs:
-            cands += re.findall(r'"([^"]*)"', msg) + [t.strip("\"'.,:;()") for t in msg.split()]
+            from props.c13 import salt_candidates
+            cands += salt_candidates(msg)
         ok = None
         for c in dict.fromkeys(x for x in cands if x):
             if [make([n], c).anonymize(n) for n in nums] == got:
@@ -346,4 +385,4 @@ def anonymize_line(an, line):
 
 def parts(tier, seed):
     return [RangePart(tier, seed), RealMd5Part(tier, seed), TokenPart(tier, seed), InstancesPart(tier, seed),
-            GeneratedSaltPart(tier, seed)]
+            GeneratedSaltPart(tier, seed), CollisionPart(tier, seed)]
